@@ -300,6 +300,102 @@ func c26WaitSchedulerParked() {
 	}
 }
 
+// c26BlockedWorkers counts worker goroutines (startWorker) that are parked in their select or
+// in the send on stoppedWorkers. Right after Stop returned there must be none: Stop received
+// one ack from every worker, and a worker's ack is the last thing it does before returning.
+var c26StackBuf = make([]byte, 2<<20)
+
+func c26BlockedWorkers() int {
+	buf := c26StackBuf
+	n := runtime.Stack(buf, true)
+	cnt := 0
+	for _, blk := range strings.Split(string(buf[:n]), "\n\n") {
+		if !strings.Contains(blk, "startWorker.func1") {
+			continue
+		}
+		a, b := strings.Index(blk, "["), strings.Index(blk, "]")
+		if a < 0 || b < a {
+			continue
+		}
+		st := strings.SplitN(blk[a+1:b], ",", 2)[0]
+		if st == "select" || strings.HasPrefix(st, "chan ") {
+			cnt++
+		}
+	}
+	return cnt
+}
+
+// c26CheckStopped is called right after Stop returned (all pools of this process that were
+// created before are stopped too): no worker goroutine may still be waiting.
+var c26StopReported bool
+
+func c26CheckStopped(r *verifh.Run, where string) {
+	if c26StopReported {
+		return // leaked workers of an earlier pool would be counted again
+	}
+	if n := c26BlockedWorkers(); n > 0 {
+		c26StopReported = true
+		r.Violation("stop-returned-before-workers-exit", "%s: Stop returned while %d worker goroutine(s) are still parked in select / on stoppedWorkers", where, n)
+	}
+}
+
+// c26WaitCallbacks waits until the Done callbacks of the given jobs have run (they are
+// asynchronous goroutines); returns the jobs whose callback did not run in time.
+func c26WaitCallbacks(mu *sync.Mutex, log *[]c26Ev, want map[int]bool) []int {
+	deadline := time.Now().Add(2 * time.Second)
+	for {
+		mu.Lock()
+		seen := map[int]bool{}
+		for _, ev := range *log {
+			if ev.kind == 2 {
+				seen[ev.id] = true
+			}
+		}
+		mu.Unlock()
+		var missing []int
+		for j := range want {
+			if !seen[j] {
+				missing = append(missing, j)
+			}
+		}
+		if len(missing) == 0 || time.Now().After(deadline) {
+			sort.Ints(missing)
+			return missing
+		}
+		time.Sleep(50 * time.Microsecond)
+	}
+}
+
+// c26CallbackOracle: a job whose result came from the scheduler's normal path has its
+// completed channel closed, so its Done callback runs; a job answered with ErrShutdown never
+// gets completed closed: its callback never runs (and the goroutine started by Done leaks) —
+// Model: `Props.C26.shutdown_job_never_completed`. The property does not promise callbacks
+// for shutdown jobs; the behaviour is recorded (counter), a callback that DOES run for a
+// shutdown job or is lost for a completed job is a violation.
+func c26CallbackOracle(r *verifh.Run, mu *sync.Mutex, log *[]c26Ev, results []string, withCb map[int]bool) {
+	want := map[int]bool{}
+	for j, res := range results {
+		if withCb[j] && res != "shutdown" && res != "" {
+			want[j] = true
+		}
+	}
+	for _, j := range c26WaitCallbacks(mu, log, want) {
+		r.Violation("callback-lost", "job %d completed (%s) but its Done callback did not run", j, results[j])
+	}
+	mu.Lock()
+	defer mu.Unlock()
+	for _, ev := range *log {
+		if ev.kind == 2 && ev.id < len(results) && results[ev.id] == "shutdown" {
+			r.Violation("callback-ran-for-shutdown-job", "job %d was answered with ErrShutdown but its Done callback ran", ev.id)
+		}
+	}
+	for j, res := range results {
+		if withCb[j] && res == "shutdown" {
+			r.Count("callback-never-runs-for-shutdown-job")
+		}
+	}
+}
+
 func c26Res(err error) string {
 	var te c26Err
 	switch {
@@ -370,8 +466,12 @@ func (c *c26Case) finish() {
 		}
 		c.results[j] = res
 	}
-	// callbacks are asynchronous: give them a moment (they are only checked for order)
-	time.Sleep(20 * time.Microsecond)
+	c26CheckStopped(c.r, "gated case")
+	withCb := map[int]bool{}
+	for j := range c.jobs {
+		withCb[j] = true // every job got Done(cb) (by a `done` op or just above)
+	}
+	c26CallbackOracle(c.r, &c.mu, &c.log, c.results, withCb)
 	c.mu.Lock()
 	defer c.mu.Unlock()
 	c26Oracle(c.r, c.m.taskJob, c.m.taskFail, c.log, c.results)
@@ -930,6 +1030,7 @@ func c26Stress(r *verifh.Run, wk, rounds int) bool {
 		r.Violation("hang", "stress workers=%d: Stop did not return", wk)
 		return false
 	}
+	c26CheckStopped(r, fmt.Sprintf("stress workers=%d", wk))
 	r.Count("stress-pools")
 	return true
 }
@@ -1019,9 +1120,15 @@ func c26Free(r *verifh.Run, f []string) bool {
 		r.Violation("hang", "free-running case seed=%d workers=%d: Stop did not return", seed, w)
 		return true
 	}
+	c26CheckStopped(r, fmt.Sprintf("free-running case seed=%d workers=%d", seed, w))
 	if _, err := p.NewJob(1); !errors.Is(err, ErrShutdown) {
 		r.Violation("newjob-after-stop", "NewJob after Stop returned %v, want ErrShutdown", err)
 	}
+	withCb := map[int]bool{}
+	for j := range jobs {
+		withCb[j] = true
+	}
+	c26CallbackOracle(r, &mu, &log, results, withCb)
 	mu.Lock()
 	defer mu.Unlock()
 	c26Oracle(r, taskJob, taskFail, log, results)
